@@ -1289,6 +1289,7 @@ package yqlib
 //@   props C06 C11
 //@   requires n != nil
 //@   ensures @integers-exact {C06} implies(n.Tag == "!!int", (result1 == nil) == intOk(n.Value) && implies(result1 == nil, result0 == iface(int64(intOf(n.Value)))))
+//@   ensures @floats-by-value {C06} implies(n.Tag == "!!float", (result1 == nil) == fltOk(n.Value) && implies(result1 == nil, istype(result0, float64) && result0.(float64) == fltOf(n.Value)))
 //@   ensures @null {C06} implies(n.Tag == "!!null", result1 == nil && result0 == nil)
 //@   ensures @booleans {C06} implies(n.Tag == "!!bool", result1 == nil && result0 == iface(truthyNode(n) && true))
 //@   ensures @strings-verbatim {C06} implies(coreTagged(n) && n.Tag != "!!int" && n.Tag != "!!float" && n.Tag != "!!bool" && n.Tag != "!!null", result1 == nil && result0 == iface(n.Value))
